@@ -68,9 +68,33 @@ impl<'a> Class<'a> {
         if let Some(r) = f(self) {
             Some(r)
         } else {
-            self.base_classes()
-                .find_map(|r| r.and_then(|c| f(&c).transpose()).transpose())
+            self.find_map_base_classes(f)
         }
+    }
+
+    /// Searches the base classes for the first one that `f` maps to a value.
+    ///
+    /// A base class which can't be resolved doesn't end the search, so the result doesn't
+    /// depend on the order of the super classes. The error is returned only if nothing is
+    /// found in the other base classes.
+    fn find_map_base_classes<T>(
+        &self,
+        mut f: impl FnMut(&Class<'a>) -> Option<Result<T, TypeMapError>>,
+    ) -> Option<Result<T, TypeMapError>> {
+        let mut first_err = None;
+        for r in self.base_classes() {
+            match r {
+                Ok(c) => {
+                    if let Some(x) = f(&c) {
+                        return Some(x);
+                    }
+                }
+                Err(e) => {
+                    first_err.get_or_insert(e);
+                }
+            }
+        }
+        first_err.map(Err)
     }
 
     pub fn is_derived_from(&self, base: &Class) -> bool {
@@ -83,8 +107,7 @@ impl<'a> Class<'a> {
         if self == base {
             Some(Ok(()))
         } else {
-            self.base_classes()
-                .find_map(|r| r.map(|c| (&c == base).then_some(())).transpose())
+            self.find_map_base_classes(|c| (c == base).then_some(Ok(())))
         }
     }
 
